@@ -86,7 +86,18 @@ let run_hist cfgtok evtok =
     else parts in
   if parts = [] then "-" else String.concat "|" parts
 
+let show_res = function
+  | Res.Ok b -> token_of_bytes b
+  | Res.Err _ -> "err"
+  | Res.Panic s -> "panic"
+
 let register () =
+  Registry.register "c01.conv" (function
+      | [t; ts; p] ->
+        let m = { GroupMsg.rm_type = n_of_token t; GroupMsg.rm_ts = n_of_token ts; GroupMsg.rm_payload = bytes_of_token p } in
+        Printf.sprintf "%s %s %s" (show_res (GroupFanoutBytes.chunk_bytes false m)) (show_res (GroupFanoutBytes.chunk_bytes true m))
+          (token_of_bytes (GroupFanoutBytes.tag_bytes m))
+      | _ -> "bad-args");
   Registry.register "c01.hist" (function
       | [c; e] -> run_hist c e
       | _ -> "bad-args")
